@@ -37,7 +37,26 @@ def main():
                     print('VIOLATION property=%s replay=%s' % (prop, a.replay))
                 return 1 if still else 0
             # theorem / correspondence replays: re-run the whole check
-        mod.check(ctx)
+        try:
+            mod.check(ctx)
+        except core.Infra:
+            raise
+        except Exception as e:
+            # an exception that comes out of the LIBRARY (innermost frame inside the checked-out repo) while the
+            # harness was driving it on a generated input is not an infrastructure problem: the code raised where
+            # the unchanged code does not.  It is recorded as a broken correspondence (the search below looks for a
+            # concrete input; the traceback goes into the replay file).  Exceptions raised by the harness itself
+            # stay infrastructure errors.
+            tb = traceback.extract_tb(e.__traceback__)
+            inner = tb[-1].filename if tb else ''
+            if not os.path.realpath(inner).startswith(os.path.realpath(core.REPO) + os.sep):
+                raise
+            where = next((f for f in reversed(tb) if '/harness/' in f.filename), None)
+            ctx.tie_broken('correspondence', 'library-raised:%s' % type(e).__name__,
+                           '%s: %s at %s:%d (driven from %s:%d)' % (
+                               type(e).__name__, str(e)[:200], os.path.relpath(inner, core.REPO), tb[-1].lineno,
+                               os.path.basename(where.filename) if where else '?', where.lineno if where else 0))
+            ctx.required_branches = []
         if ctx.broken and not ctx.failures and hasattr(mod, 'search'):
             print('proof/correspondence broken (%s); searching for a failing input ...'
                   % ', '.join(sorted({b['name'] for b in ctx.broken}))[:300])
